@@ -88,13 +88,19 @@ def run(ctx):
     from lib import graphspec as gs
     stable = [m for m in gmodels if not gs.degenerate(m) and (gs.well_founded(m) or not gs.cycle_info(m)["has_cycle"])]
     reqs += [{"op": "wgraph", "m": m, "orders": [], "repeat": 1} for m in stable[:n // 4]]
+    # the nine validators one by one, on strings that only some of them accept: which validator a process uses first must not matter
+    vstrings = ["tenant:in_office_hours", "doc:1#viewer", "a@b", "viewer", "user:*", "x" * 51, "doc:" + "a" * 252, ""]
+    reqs += [{"op": "validate", "s": S(v), "only": k} for v in vstrings for k in range(9)]
     first = [strip(r) for r in ctx.impl(reqs, seq=True)]
     order2 = list(range(len(reqs)))
     rng.shuffle(order2)
     warm = [{"op": "dsl", "d": S("model\n  schema 1.1\ntype x%d\n  relations\n    define r: [x%d] or r or (a and b)\n" % (i, i)), "modular": False} for i in range(30)]
     second = ctx.impl(warm + [reqs[i] for i in order2], seq=True)[len(warm):]
     third = ctx.impl(reqs, seq=False, workers=16)
-    for run_name, idxs, res in (("other order after warm-up", order2, second), ("16 goroutines", list(range(len(reqs))), third)):
+    rev = list(range(len(reqs)))[::-1]
+    fourth = ctx.impl([reqs[i] for i in rev], seq=True)
+    for run_name, idxs, res in (("other order after warm-up", order2, second), ("16 goroutines", list(range(len(reqs))), third),
+                                ("the reverse order", rev, fourth)):
         for i, r in zip(idxs, res):
             ctx.evaluations += 1
             if strip(r) != first[i]:
